@@ -3,7 +3,7 @@
   depth) are never `Equals`.
 -/
 import Cog.Sem.GoEqualsLaws
-namespace Cog.Sem
+namespace Cog.Sem.GoEq
 open Cog.IR Cog.Sem.GoVal
 
 /-- `LeafDiff a b`: `b` is `a` with exactly one leaf changed — a scalar with another payload, an
@@ -165,4 +165,4 @@ theorem goEquals_false_of_leafDiff : ∀ (fuel : Nat) (ss : Schemas) (t : Ty) (a
         exact eqBranches_false_mid post (fun t wx wy => ih t _ _ wx wy h') pre fields hx.1 hy.1
     case alias t' => exact ih t' a b ha hb hd
 
-end Cog.Sem
+end Cog.Sem.GoEq
